@@ -1,4 +1,5 @@
 import Zc.Proofs.Wire.Message
+import Zc.Proofs.Wire.Total
 /-! # C14 — outgoing messages respect size limits and account for every section entry
 
 Every datagram produced by the message builder is at most 8966 bytes, and at most 1460 bytes unless
@@ -168,5 +169,66 @@ theorem C14_tc (m : Msg) (hwf : WFMsg m) (hfit : FitAll m) (pks : List Bytes) (h
   obtain ⟨msgs, e, ne, _, _, _, _, _, _, _, hfl⟩ := packetsLoop_spec m hwf hfit _ ⟨0, 0, 0, 0⟩ pks
     ⟨Nat.zero_le _, Nat.zero_le _, Nat.zero_le _, Nat.zero_le _⟩ (by simp [remaining]) h
   exact ⟨msgs, e, ne, fun hr => flagsOK_response m hr msgs hfl, fun hq => flagsOK_query m hq msgs hfl⟩
+
+/-- **Degrades into a sequence, always**: for a message inside the quantifier (16-bit flags and id, TXT payloads the
+16-bit rdlength can carry) the builder returns datagrams — it cannot stop with an exception — and the sequence is non-empty. -/
+theorem C14_total (m : Msg) (hwf : WFMsg m) (hfit : FitAll m) (hf : m.flags < 65536) (hi : m.id < 65536) (ht : TxtOK m) :
+    ∃ pks, packets m = .ok pks ∧ pks ≠ [] := by
+  obtain ⟨pks, h⟩ := Zc.Survive.packets_total m (hwf.safe hf hi ht)
+  obtain ⟨msgs, e, ne, _⟩ := C14_tc m hwf hfit pks h
+  refine ⟨pks, h, ?_⟩
+  intro hp
+  rw [hp] at e
+  cases msgs with
+  | nil => exact ne rfl
+  | cons a t => simp at e
+
+/-- the TC clause as the sentence has it, when the caller's flags do not already carry TC (a TC bit given by the
+caller is transmitted as given — a reading; the library's own callers never set it): responses never set TC, and a
+query sets it on every datagram except the last -/
+theorem C14_tc_bit (m : Msg) (hwf : WFMsg m) (hfit : FitAll m) (pks : List Bytes) (h : packets m = .ok pks)
+    (hno : m.flags &&& 512 = 0) :
+    ∃ msgs : List WMsg, pks.map Strict.decode = msgs.map some ∧ msgs ≠ [] ∧
+      (m.flags &&& 32768 ≠ 0 → ∀ w ∈ msgs, w.flags &&& 512 = 0) ∧
+      (m.flags &&& 32768 = 0 → (∀ w ∈ msgs.dropLast, w.flags &&& 512 = 512) ∧ (∀ w, msgs.getLast? = some w → w.flags &&& 512 = 0)) := by
+  obtain ⟨msgs, e, ne, hr, hq⟩ := C14_tc m hwf hfit pks h
+  refine ⟨msgs, e, ne, ?_, ?_⟩
+  · intro h1 w hw; rw [hr h1 w hw]; exact hno
+  · intro h1
+    obtain ⟨ha, hb⟩ := hq h1
+    refine ⟨?_, ?_⟩
+    · intro w hw
+      rw [ha w hw, Nat.and_or_distrib_right, hno]
+      decide
+    · intro w hw; rw [hb w hw]; exact hno
+
+/-! ### non-vacuity: messages that really split / really exceed 1460 bytes -/
+
+def exT : WName := [[95, 104], [95, 116], [108]]          -- _h._t.l
+def exBlob (n : Nat) (c : UInt8) : Bytes := List.replicate n c
+
+/-- a query whose two 900-byte TXT known answers do not fit one 1460-byte datagram: two datagrams, TC on the first only -/
+def exSplit : Msg :=
+  { flags := 0, id := 0, multicast := true, questions := [⟨exT, 12, 1, false⟩],
+    answers := [(⟨[97] :: exT, 16, 1, true, 4500, 0, .txt (exBlob 900 1)⟩, 0), (⟨[98] :: exT, 16, 1, true, 4500, 0, .txt (exBlob 900 2)⟩, 0)],
+    authorities := [], additionals := [] }
+
+example : WFMsg exSplit ∧ FitAll exSplit ∧ TxtOK exSplit :=
+  ⟨⟨by decide +kernel, by decide +kernel, by decide +kernel, by decide +kernel⟩,
+   ⟨by decide +kernel, by decide +kernel, by decide +kernel, by decide +kernel⟩,
+   ⟨by decide +kernel, by decide +kernel, by decide +kernel⟩⟩
+example : (packets exSplit).toOption.map (fun pks => pks.map (fun p => (p.length, (Strict.decode p).map (fun w => (w.flags, entryCount w))))) =
+    some [(939, some (512, 2)), (933, some (0, 1))] := by decide +kernel
+
+/-- a response with one 5000-byte TXT: a single datagram above 1460 bytes carrying exactly one entry -/
+def exBig : Msg :=
+  { flags := 0x8400, id := 0, multicast := true, questions := [],
+    answers := [(⟨[97] :: exT, 16, 1, true, 4500, 0, .txt (exBlob 5000 1)⟩, 0)], authorities := [], additionals := [] }
+
+example : WFMsg exBig ∧ FitAll exBig :=
+  ⟨⟨by decide +kernel, by decide +kernel, by decide +kernel, by decide +kernel⟩,
+   ⟨by decide +kernel, by decide +kernel, by decide +kernel, by decide +kernel⟩⟩
+example : (packets exBig).toOption.map (fun pks => pks.map (fun p => (decide (1460 < p.length), (Strict.decode p).map (fun w => (w.flags, entryCount w))))) =
+    some [(true, some (0x8400, 1))] := by decide +kernel
 
 end Zc
